@@ -129,7 +129,7 @@ C14_2D(tk) ==
     rows_scale_median_margin    |-> ScaleMarginMedian(tk, DimC),
     columns_scale_median_margin |-> ScaleMarginMedian(tk, DimR),
     \* read for its side effects only (it shares cached arrays with the scale means)
-    columns_scale_mean_pairwise_indices |-> AnyOrder ]
+    columns_scale_mean_pairwise_indices |-> [k |-> "touch", nd |-> 0, v |-> 0] ]
 C14_1D(tk) ==
   [ scale_mean    |-> IF SNone(tk) THEN NoneV ELSE Num0(Div(R(SScaleS1(tk)), R(SScaleN(tk)))),
     scale_median  |-> IF SNone(tk) THEN NoneV ELSE Num0(MedianOf(DimR, SScaleCnt(tk))),
